@@ -27,6 +27,8 @@ class Shim:
         self.lib = ctypes.CDLL(path)
         self.lib.shim_set_script.argtypes = [ctypes.c_int, ctypes.POINTER(ctypes.c_size_t),
                                              ctypes.POINTER(ctypes.c_size_t), ctypes.c_int]
+        self.lib.shim_set_script_tids.argtypes = [ctypes.c_int, ctypes.POINTER(ctypes.c_size_t),
+                                                  ctypes.POINTER(ctypes.c_size_t), ctypes.POINTER(ctypes.c_int), ctypes.c_int]
         self.lib.shim_stats.argtypes = [ctypes.POINTER(ctypes.c_long)]
         self.total_dispatches = 0
         self.total_ranges = 0
@@ -37,7 +39,9 @@ class Shim:
         n = len(ranges)
         A = (ctypes.c_size_t * max(1, n))(*[r[0] for r in ranges])
         B = (ctypes.c_size_t * max(1, n))(*[r[1] for r in ranges])
-        self.lib.shim_set_script(n, A, B, 1 if threaded else 0)
+        # a range is (start, end) -> worker id = position in the script, or (start, end, tid): ids may repeat
+        T = (ctypes.c_int * max(1, n))(*[(r[2] if len(r) > 2 else k) for k, r in enumerate(ranges)])
+        self.lib.shim_set_script_tids(n, A, B, T, 1 if threaded else 0)
         self.lib.shim_reset_stats()
 
     def in_worker(self, flag):
@@ -694,6 +698,27 @@ def partitions(L, rng, reps_threaded=1, full=True):
         rs = [(a, b) for a, b in zip([0] + cs, cs + [L])]
         rng.shuffle(rs)
         P.append((rs, False, "rand%d" % k))
+    # worker ids REUSED: more sub-ranges than workers (tid-indexed per-thread storage must accumulate)
+    def cuts_k(k):
+        cs = sorted(set([1, L // 3 + 1] + [rng.randrange(0, L + 1) for _ in range(k - 3)]))
+        while len(cs) < k - 1:
+            cs = sorted(set(cs + [rng.randrange(0, L + 1)]))
+        return [(a, b) for a, b in zip([0] + cs, cs + [L])]
+    r5 = cuts_k(5)
+    rr = [(a, b, k % 2) for k, (a, b) in enumerate(r5)]                  # 2 workers x 5 sub-ranges, round-robin
+    P.append((rr, False, "tids-rr2x5"))
+    P.append((rr[::-1], False, "tids-rr2x5-rev"))
+    one = [(a, b, 0) for a, b in r5]                                     # everything on worker 0
+    P.append((one, False, "tids-all0"))
+    P.append((one[::-1], False, "tids-all0-rev"))
+    if full:
+        r7 = cuts_k(7)
+        rnd = [(a, b, rng.randrange(3)) for a, b in r7]
+        rng.shuffle(rnd)
+        P.append((rnd, False, "tids-rand3x7"))
+        hi = [(a, b, 1 if k == 0 else 3) for k, (a, b) in enumerate(r5)]  # sparse ids: workers() = 4, ids 0 and 2 idle
+        P.append((hi, False, "tids-sparse"))
+    P.append((rr, True, "thr-tids-rr2x5"))
     for rep in range(reps_threaded):
         P.append(([(0, 200), (200, L)], True, "thr-2way@200"))
         c1 = rng.randrange(0, L + 1)
@@ -871,7 +896,8 @@ class Out:
 
 
 def desc_ranges(rs):
-    return [[a, b] for a, b in rs]
+    """[[start, end, tid]] as handed to the pool"""
+    return [[r[0], r[1], (r[2] if len(r) > 2 else k)] for k, r in enumerate(rs)]
 
 
 def first_diff(a, b):
@@ -923,8 +949,8 @@ class Exerciser:
         self.viol_keys = set()
         self.nan_only_count = 0
 
-    def violate(self, kind, e, kinds, what, replay):
-        key = "%s:%s(%s)|%s" % (kind, e.key, e.sig.split("(", 1)[1].rstrip(")")[:160], kinds)
+    def violate(self, kind, e, kinds, what, replay, key=None):
+        key = key or "%s:%s(%s)|%s" % (kind, e.key, e.sig.split("(", 1)[1].rstrip(")")[:160], kinds)
         if key in self.viol_keys:
             return
         self.viol_keys.add(key)
@@ -999,6 +1025,20 @@ class Exerciser:
                 specs.append(sp)
             else:
                 specs.append(make_spec(e, pos, kind, ti, lv, mode, L, rng, ds))
+        # reductions into a scalar self (Box.extendBy(array): tid-indexed partial results): put the extreme
+        # elements into sub-ranges that are NOT the last ones of their worker in the reused-worker-id scripts
+        # (those cut at 1 and at L//3+1), so a partial result that is overwritten instead of extended shows
+        if e.method and e.args and e.args[0][0] == "scalar" and e.args[0][2] and ds == "nice" and L > 3:
+            for sp in specs[1:]:
+                if sp.kind == "array" and sp.ti.shape in ("vec", "prim") and sp.ti.base != "bool":
+                    for j, mag in ((0, 100), (L // 3, -100)):
+                        try:
+                            val = unflat(sp.ti, [type(flat(sp.ti, sp.values[j])[0])(mag)] * sp.ti.n)
+                        except Exception:
+                            continue
+                        sp.values[j] = val
+                        if sp.under is not None:
+                            sp.under[sp.idx[j]] = val
         kinds = kinds_label(specs)
         summ["kinds"][kinds] = summ["kinds"].get(kinds, 0) + 1
         if L not in summ["lengths"]:
@@ -1072,6 +1112,8 @@ class Exerciser:
             summ["dispatches"] += st["dispatches"]
             if thr:
                 summ["threaded_runs"] += 1
+            if label.startswith("tids-") or label.startswith("thr-tids-"):
+                summ["tid_reuse_partitions"] = summ.get("tid_reuse_partitions", 0) + 1
             dispatched_at[L] = max(dispatched_at.get(L, 0), st["dispatches"])
             if st["fallbacks"]:
                 summ["fallback_lengths"] = summ.get("fallback_lengths", []) + [st["last_length"]]
@@ -1434,60 +1476,68 @@ class Exerciser:
 
     # ...................................................................
     def mismatch_lengths(self, e, rng, summ):
+        """Every array argument position in turn is made one element SHORTER and one element LONGER than all
+        the other array arguments (which have equal lengths): the call must raise, and must not have modified an
+        argument before raising.  Result values are never read."""
         apos = [i for i, (k, _, _) in enumerate(e.args) if k == "array"]
         if len(apos) < 2:
             return
-        res = {"raised": 0, "cases": 0}
-        for L in (5, 250):
-            for victim in apos[1:] if len(apos) <= 4 else rng.sample(apos[1:], 3):
-                for delta in (1, -1):
-                    for modes_all in ("direct", "masked"):
-                        specs = []
-                        for pos, (kind, ti, lv) in enumerate(e.args):
-                            n = L + (delta if pos == victim else 0)
-                            mode = "scalar" if kind == "scalar" else (modes_all if pos in (apos[0], victim) else "direct")
-                            specs.append(make_spec(e, pos, kind, ti, lv, mode, n, rng, "nice"))
-                        # a masked self accepts an argument of its UNMASKED length: avoid that coincidence
-                        if modes_all == "masked" and specs[apos[0]].under is not None and \
-                                len(specs[apos[0]].under) == len(specs[victim].values):
+        res = {"raised": 0, "calls": 0, "cases": 0}
+        for victim in apos:
+            for delta, word in ((-1, "shorter"), (1, "longer")):
+                res["cases"] += 1
+                key = "length-mismatch-not-raised:%s#%d:%s" % (e.key, victim + 1, word)
+                for L, modes_all, pools in ((5, "direct", (False,)), (5, "masked", (False,)), (250, "direct", (False, True))):
+                    specs = []
+                    for pos, (kind, ti, lv) in enumerate(e.args):
+                        n = L + (delta if pos == victim else 0)
+                        mode = "scalar" if kind == "scalar" else (modes_all if pos in (apos[0], victim) else "direct")
+                        specs.append(make_spec(e, pos, kind, ti, lv, mode, n, rng, "nice"))
+                    # a masked self accepts an argument of its UNMASKED length: avoid that coincidence
+                    if modes_all == "masked":
+                        und = [len(s.under) for s in specs if s.under is not None]
+                        lens = [len(s.values) for s in specs if s.kind == "array"]
+                        if any(u in lens for u in und):
                             continue
-                        kinds = kinds_label(specs) + "|len%+d@%d" % (delta, victim)
-                        for pool in (False, True):
-                            if pool:
-                                SHIM.script([(0, 100), (100, L + 1)], False)
-                            else:
-                                SHIM.clear()
-                            built = [s.build() for s in specs]
-                            pre = [snap_obj(u if u is not None else o) if s.kind == "array" else None
-                                   for s, (o, u) in zip(specs, built)]
-                            res["cases"] += 1
-                            if GUARD:
-                                b2 = [s.build() for s in specs]
-                                sig = forked(lambda: do_call(e, [b[0] for b in b2]))
-                                if sig is not None:
-                                    self.violate("mismatch-crash", e, kinds,
-                                                 "argument arrays of mismatched length crash the interpreter (signal %d)" % sig,
-                                                 {"L": L, "lens": [len(s.values) if s.kind == "array" else None for s in specs]})
-                                    raise CrashFound(sig)
-                            try:
-                                do_call(e, [b[0] for b in built])
-                                raised = False
-                            except Exception as ex:
-                                raised = True
-                            post = [snap_obj(u if u is not None else o) if s.kind == "array" else None
-                                    for s, (o, u) in zip(specs, built)]
+                    kinds = kinds_label(specs) + "|arg%d %s" % (victim + 1, word)
+                    lens = [len(s.values) if s.kind == "array" else None for s in specs]
+                    for pool in pools:
+                        if pool:
+                            SHIM.script([(0, 100), (100, L + 1)], False)
+                        else:
                             SHIM.clear()
-                            if raised:
-                                res["raised"] += 1
-                                if pre != post:
-                                    self.violate("mismatch-write", e, kinds,
-                                                 "mismatched lengths raise, but an argument array was modified before the check",
-                                                 {"L": L, "lens": [len(s.values) if s.kind == "array" else None for s in specs]})
-                            else:
-                                self.violate("mismatch", e, kinds,
-                                             "argument arrays of mismatched length do not raise",
-                                             {"L": L, "lens": [len(s.values) if s.kind == "array" else None for s in specs],
-                                              "pool_installed": pool})
+                        built = [s.build() for s in specs]
+                        pre = [snap_obj(u if u is not None else o) if s.kind == "array" else None
+                               for s, (o, u) in zip(specs, built)]
+                        res["calls"] += 1
+                        if GUARD:
+                            b2 = [s.build() for s in specs]
+                            sig = forked(lambda: do_call(e, [b[0] for b in b2]))
+                            if sig is not None:
+                                self.violate("mismatch-crash", e, kinds,
+                                             "argument arrays of mismatched length crash the interpreter (signal %d)" % sig,
+                                             {"L": L, "lens": lens, "position": victim + 1, "which": word}, key=key)
+                                raise CrashFound(sig)
+                        try:
+                            do_call(e, [b[0] for b in built])
+                            raised = False
+                        except Exception as ex:
+                            raised = True
+                        post = [snap_obj(u if u is not None else o) if s.kind == "array" else None
+                                for s, (o, u) in zip(specs, built)]
+                        SHIM.clear()
+                        if raised:
+                            res["raised"] += 1
+                            if pre != post:
+                                self.violate("mismatch-write", e, kinds,
+                                             "mismatched lengths raise, but an argument array was modified before the check",
+                                             {"L": L, "lens": lens})
+                        else:
+                            self.violate("mismatch", e, kinds,
+                                         "array argument %d is one element %s than the other array arguments and the call does "
+                                         "not raise" % (victim + 1, word),
+                                         {"L": L, "lens": lens, "position(1-based among the call's arguments, self/first = 1)": victim + 1,
+                                          "which": word, "pool_installed": pool}, key=key)
         summ["mismatch_len"] = res
 
 
@@ -1496,7 +1546,8 @@ class Exerciser:
 def cmd_list():
     eps, nonvec, total = enumerate_entry_points()
     out = {"overloads_total": total, "non_vectorised": nonvec, "vectorised": len(eps),
-           "entries": [{"key": e.key, "sig": e.sig, "skip": e.skip, "core": is_core(e)} for e in eps]}
+           "entries": [{"key": e.key, "sig": e.sig, "skip": e.skip, "core": is_core(e),
+                        "n_arrays": sum(1 for k, _, _ in e.args if k == "array")} for e in eps]}
     json.dump(out, sys.stdout)
 
 
@@ -1529,6 +1580,27 @@ def cmd_run(optpath, outpath):
             prog.write("END %s\n" % e.key)
             prog.flush()
         done += 1
+    # length-mismatch test only (every tier runs it for EVERY entry point with >= 2 array arguments)
+    for k in (o.get("mm_keys") or []):
+        e = byk.get(k)
+        if e is None:
+            continue
+        if prog:
+            prog.write("BEGIN %s\n" % e.key)
+            prog.flush()
+        GUARD = bool(o.get("guard"))
+        SAFE = False
+        summ = {"t": "mm", "key": e.key, "mismatch_len": None}
+        try:
+            ex.mismatch_lengths(e, random.Random("%d:mm:%s" % (o["seed"], e.key)), summ)
+        except CrashFound as cf:
+            summ["crashed_signal"] = cf.args[0]
+        except Exception:
+            out.put({"t": "harness-error", "key": e.key, "error": traceback.format_exc()[-1500:]})
+        out.put(summ)
+        if prog:
+            prog.write("END %s\n" % e.key)
+            prog.flush()
     SHIM.clear()
     out.put({"t": "stats", "done": done, "nan_bits_only_differences": ex.nan_only_count, "dispatches": SHIM.total_dispatches, "ranges": SHIM.total_ranges,
              "fallbacks": SHIM.total_fallbacks, "thread_exceptions": SHIM.total_thread_exc, "wall": round(time.time() - t0, 2)})
@@ -1677,10 +1749,70 @@ def cmd_model(optpath, outpath):
                         cases.append((line, ("raise" if raised else "ok", 1 if st["dispatches"] else 0, real),
                                       {"cls": cls_name, "op": pyname, "L": L, "self": sm, "arg": am, "ranges": rs,
                                        "pool": pool_inst, "inworker": inworker}))
-    p = subprocess.run([o["driver"]], input="\n".join(c[0] for c in cases) + "\n", capture_output=True, text=True)
+    # ---- reductions: Box.extendBy(array) with per-worker partial boxes; worker ids REUSED in the script ----
+    box_cases = []        # (lines per coordinate, expected per coordinate, meta)
+    for bname, vname, aname, dim in (("Box2i", "V2i", "V2iArray", 2), ("Box3i", "V3i", "V3iArray", 3),
+                                     ("Box3s", "V3s", "V3sArray", 3)):
+        B, V, A = getattr(imath, bname), getattr(imath, vname), getattr(imath, aname)
+        for L in sorted(set(o["model_lengths"] + [257, 640])):
+            for variant in range(6):
+                pts = [[rng.randrange(-1000, 1001) for _ in range(dim)] for _ in range(L)]
+                arr = A(L)
+                for i, pnt in enumerate(pts):
+                    arr[i] = V(*pnt)
+                if variant % 2 == 0:
+                    box, btok = B(), ["e"] * dim
+                else:
+                    lo = [rng.randrange(-50, 0) for _ in range(dim)]
+                    hi = [rng.randrange(0, 50) for _ in range(dim)]
+                    box, btok = B(V(*lo), V(*hi)), ["b %d %d" % (a, b) for a, b in zip(lo, hi)]
+                k = rng.choice((1, 2, 5, 9))
+                cs = sorted(rng.randrange(0, L + 1) for _ in range(k - 1))
+                w = rng.choice((1, 2, 3)) if variant < 4 else k          # fewer workers than sub-ranges: ids reused
+                rs = [(a, b, rng.randrange(w)) for a, b in zip([0] + cs, cs + [L])]
+                rng.shuffle(rs)
+                pool_inst = rng.random() < 0.9
+                inworker = pool_inst and rng.random() < 0.1
+                threaded = pool_inst and variant == 3
+                pooltok = "%d %d %d %s" % (1 if pool_inst else 0, 1 if inworker else 0, len(rs),
+                                           " ".join("%d %d %d" % r for r in rs))
+                if pool_inst:
+                    SHIM.script(rs, threaded)
+                    SHIM.in_worker(inworker)
+                else:
+                    SHIM.clear()
+                box.extendBy(arr)
+                st = SHIM.take()
+                SHIM.in_worker(False)
+                SHIM.clear()
+                mn, mx = _attr(box, "min"), _attr(box, "max")
+                empty = box.isEmpty()
+                reused = len(set(r[2] for r in rs)) < len(rs)
+                for c in range(dim):
+                    line = "box %d %s %s %s" % (L, " ".join(str(pnt[c]) for pnt in pts), btok[c], pooltok)
+                    exp = "e" if empty else "%d %d" % (mn[c], mx[c])
+                    box_cases.append((line, exp, {"cls": bname, "L": L, "coordinate": c, "script(start,end,tid)": rs,
+                                                  "pool": pool_inst, "inworker": inworker, "threaded": threaded,
+                                                  "worker_ids_reused": reused and pool_inst and not inworker and L > 200}))
+    p = subprocess.run([o["driver"]], input="\n".join([c[0] for c in cases] + [c[0] for c in box_cases]) + "\n",
+                       capture_output=True, text=True)
     lines = p.stdout.strip().split("\n")
     bad, nraise, nused = 0, 0, 0
     hits = {}
+    box_lines = lines[len(cases):]
+    lines = lines[:len(cases)]
+    nbox_bad, nreuse = 0, 0
+    for (line, exp, meta), got in zip(box_cases, box_lines):
+        nreuse += 1 if meta["worker_ids_reused"] else 0
+        if got.strip() != exp:
+            nbox_bad += 1
+            if nbox_bad <= 5:
+                out.put({"t": "viol", "kind": "model", "key": "model:%s.extendBy|reduction,coordinate%d" % (meta["cls"], meta["coordinate"]),
+                         "what": "Lean model (boxExtendBy) and real Box.extendBy(array) disagree",
+                         "replay": dict(meta, driver_line=line[:3000], model=got[:100], real=exp)})
+    if len(box_lines) != len(box_cases):
+        out.put({"t": "viol", "kind": "model", "key": "model:driver-output-box", "what": "driver produced %d box lines for %d cases" % (len(box_lines), len(box_cases)),
+                 "replay": {"stderr": p.stderr[-500:]}})
     if len(lines) != len(cases):
         out.put({"t": "viol", "kind": "model", "key": "model:driver-output", "what": "driver produced %d lines for %d cases" % (len(lines), len(cases)),
                  "replay": {"stderr": p.stderr[-500:], "first": lines[:2]}})
@@ -1697,7 +1829,9 @@ def cmd_model(optpath, outpath):
                 out.put({"t": "viol", "kind": "model", "key": "model:%s.%s|%s,%s" % (meta["cls"], meta["op"], meta["self"], meta["arg"]),
                          "what": "Lean model and real module disagree",
                          "replay": dict(meta, driver_line=line[:2000], model=got[:600], real=[st, used] + real[:60])})
-    out.put({"t": "model", "cases": len(cases), "disagree": bad, "raise_cases": nraise, "pool_used_cases": nused, "hits": hits})
+    bad += nbox_bad
+    out.put({"t": "model", "cases": len(cases) + len(box_cases), "reduction_cases": len(box_cases),
+             "reduction_cases_with_reused_worker_ids": nreuse, "disagree": bad, "raise_cases": nraise, "pool_used_cases": nused, "hits": hits})
 
 
 def cmd_probe(what):
